@@ -108,6 +108,10 @@ func cmpValues(tier string) []*cmpVal {
 		w2 := append([]uint64{1}, v...)
 		os = append(os, mkWords(false, w2, 0, 0, 0), mkWords(true, w2, 0, 0, 0))
 	}
+	// words at the binary boundaries of the registers (sums of words that wrap 2^64, …)
+	for _, v := range WVecs(3, []uint64{BW - 1, (1<<64 - 1) - BW + 2, 1 << 63, 1<<63 - 1, 1}) {
+		os = append(os, mkWords(false, v, 0, 0, 0), mkWords(true, v, 0, 0, 0))
+	}
 	J := 20
 	for _, s := range RunLengthStrings(J) {
 		c := mustInt(s)
